@@ -46,6 +46,12 @@ def check(tier):
     e1.run(cfg7, rep7)
     _fold(rep, rep7, "memo")
     rep4 = Report(PROP, tier)
+    # call-argument order and same-named globals of two modules (OBJ / INST / REDUCE with >= 2 distinct arguments)
+    rep8 = Report(PROP, tier)
+    argorder = alphabet("MARK K1 STR TUPLE OBJ REDUCE POP".split(), [G("m", "X"), G("m2", "X"), INST("m", "X")])
+    cfg8 = e1.Config(PROP, argorder, depth + 1, [], [oracles.c05_value], split=2)
+    e1.run(cfg8, rep8)
+    _fold(rep, rep8, "argorder")
     ctx = alphabet("NONE K1 STR MARK TUPLE ETUP EDICT ELIST ESET POP".split(), [G("m", "C")])
     labels = {s.label for s in ctx}
     full = ctx + [s for s in fullclass_symbols() if s.label not in labels]
